@@ -68,13 +68,16 @@ func newPeer(proto string) (*peer, string) {
 			panic(err)
 		}
 		p.ln = ln
-		p.acc = make(chan net.Conn, 1)
+		p.acc = make(chan net.Conn, 8)
 		go func() {
-			c, err := ln.Accept()
-			if err == nil {
+			// every connection of the case (a history may reconnect)
+			for {
+				c, err := ln.Accept()
+				if err != nil {
+					close(p.acc)
+					return
+				}
 				p.acc <- c
-			} else {
-				close(p.acc)
 			}
 		}()
 		return p, ln.Addr().String()
@@ -116,6 +119,28 @@ func (p *peer) recv(n int) []byte {
 	return b[:k]
 }
 
+// endSession returns whatever else arrives from a process that was closed, and keeps the
+// listener / socket for the next process of the history.
+func (p *peer) endSession() []byte {
+	var out []byte
+	if p.proto == "tcp" {
+		p.conn.SetReadDeadline(time.Now().Add(2 * time.Second))
+		out, _ = io.ReadAll(p.conn)
+		p.conn.Close()
+		return out
+	}
+	b := make([]byte, 70000)
+	for {
+		p.udp.SetReadDeadline(time.Now().Add(15 * time.Millisecond))
+		k, _, err := p.udp.ReadFromUDP(b)
+		if err != nil {
+			break
+		}
+		out = append(out, b[:k]...)
+	}
+	return out
+}
+
 // drain returns whatever else arrives (after the exporter closed its side, for TCP).
 func (p *peer) drain() []byte {
 	var out []byte
@@ -142,9 +167,11 @@ func (p *peer) drain() []byte {
 // histEvent is one event of a history: a SendSet on a new (obj < 0) or an earlier set object
 // after some operations, or a wait for the template refresh.
 type histEvent struct {
-	wait bool
-	obj  int
-	ops  []setOp
+	wait   bool
+	reconn bool
+	seq0   uint32
+	obj    int
+	ops    []setOp
 }
 
 func parseHist(rest []string) []histEvent {
@@ -163,6 +190,9 @@ func parseHist(rest []string) []histEvent {
 		case "W":
 			evs = append(evs, histEvent{wait: true})
 			rest = rest[1:]
+		case "X":
+			evs = append(evs, histEvent{reconn: true, seq0: uint32(atou(rest[1]))})
+			rest = rest[2:]
 		default:
 			panic("bad history token " + rest[0])
 		}
@@ -190,16 +220,22 @@ func runHistOnce(toks []string) (string, bool) {
 		}
 	}
 	p, addr := newPeer(proto)
-	tInit := time.Now()
-	ep, err := exporter.InitExportingProcess(exporter.ExporterInput{
-		CollectorAddress: addr, CollectorProtocol: proto, ObservationDomainID: obs,
-		CheckConnInterval: time.Hour, TempRefTimeout: refresh,
-	})
-	if err != nil {
-		panic(err)
+	var tInit time.Time
+	var ep *exporter.ExportingProcess
+	connect := func(q uint32) {
+		tInit = time.Now()
+		var err error
+		ep, err = exporter.InitExportingProcess(exporter.ExporterInput{
+			CollectorAddress: addr, CollectorProtocol: proto, ObservationDomainID: obs,
+			CheckConnInterval: time.Hour, TempRefTimeout: refresh,
+		})
+		if err != nil {
+			panic(err)
+		}
+		p.ready()
+		ep.VerifSetSeq(q)
 	}
-	p.ready()
-	ep.VerifSetSeq(seq0)
+	connect(seq0)
 	timely := true
 	var out []string
 	var sets []entities.Set
@@ -209,6 +245,17 @@ func runHistOnce(toks []string) (string, bool) {
 			o, ok := waitRefresh(p, ep, tInit, mode)
 			timely = timely && ok
 			out = append(out, o)
+			continue
+		}
+		if ev.reconn {
+			// the process is closed and a new one is created for the same collector and domain;
+			// the application keeps its set and element objects
+			if refresh != 0 && time.Since(tInit) > 1900*time.Millisecond {
+				timely = false
+			}
+			ep.CloseConnToCollector()
+			out = append(out, "x="+ShowBytes(p.endSession()))
+			connect(ev.seq0)
 			continue
 		}
 		var set entities.Set
